@@ -55,11 +55,16 @@ impl Future for ManualFuture {
         if w >= self.need {
             Poll::Ready(self.id as i64)
         } else {
-            let mut ws = self.wakers.lock().unwrap();
-            while ws.len() <= self.id {
-                ws.push(None);
+            {
+                let mut ws = self.wakers.lock().unwrap();
+                while ws.len() <= self.id {
+                    ws.push(None);
+                }
+                ws[self.id] = Some(cx.waker().clone());
             }
-            ws[self.id] = Some(cx.waker().clone());
+            // a scheduling point inside the poll, after the readiness check and the waker registration:
+            // a wake from another thread may land while the future is still being polled
+            calloop::verif::yield_point("user.poll");
             Poll::Pending
         }
     }
@@ -253,7 +258,8 @@ fn loop_main(sched: Arc<Sched>, scn: Value, tx: mpsc::Sender<Handles>, ctl: Arc<
     let mut k = 0usize;
     let run_op = |el: &mut EventLoop<'static, ()>, op: &Value, k: usize| {
         let name = op.as_str().map(|s| s.to_string()).unwrap_or_else(|| op["op"].as_str().unwrap_or("").to_string());
-        ev("lcall", json!({"op": name, "k": k, "f": op.get("f").cloned().unwrap_or(json!(0))}));
+        ev("lcall", json!({"op": name, "k": k, "f": op.get("f").cloned().unwrap_or(json!(0)),
+                           "need": op.get("need").cloned().unwrap_or(json!(0))}));
         let mut r = "ok".to_string();
         let mut extra = json!({});
         let res = catch_unwind(AssertUnwindSafe(|| match name.as_str() {
@@ -325,7 +331,7 @@ fn loop_main(sched: Arc<Sched>, scn: Value, tx: mpsc::Sender<Handles>, ctl: Arc<
             "idle_wait" => {
                 // nothing is pending any more: a timed dispatch must block for its whole timeout
                 let t0 = Instant::now();
-                let to = Duration::from_millis(40);
+                let to = Duration::from_millis(IDLE_MS.load(Ordering::SeqCst) as u64);
                 if el.dispatch(to, &mut ()).is_err() {
                     r = "err".into();
                 }
@@ -383,6 +389,9 @@ fn loop_main(sched: Arc<Sched>, scn: Value, tx: mpsc::Sender<Handles>, ctl: Arc<
     sched.finish(tid);
 }
 
+/// timeout of the final "nothing pending: the loop must block" dispatch
+static IDLE_MS: AtomicUsize = AtomicUsize::new(40);
+
 /// wake counters of the manual futures (shared by the loop thread and the waker threads)
 static WOKEN: [AtomicUsize; 8] = [
     AtomicUsize::new(0), AtomicUsize::new(0), AtomicUsize::new(0), AtomicUsize::new(0),
@@ -392,6 +401,7 @@ static WOKEN: [AtomicUsize; 8] = [
 fn run_scenario(scn: &Value) {
     let detect = Duration::from_millis(scn["block_detect_ms"].as_u64().unwrap_or(25));
     let sched = Sched::new(detect);
+    IDLE_MS.store(scn["idle_ms"].as_u64().unwrap_or(40) as usize, Ordering::SeqCst);
     trace::set_base(Instant::now());
     // op names only (uniform types for the TLA+ side)
     let names = |v: &Value| -> Value {
@@ -571,18 +581,21 @@ fn run_scenario(scn: &Value) {
     }
     ctl.workers_done.store(true, Ordering::SeqCst);
     // run the loop thread to the end (final dispatches are not scheduled)
+    let mut blocked_in_a_row = 0;
     for _ in 0..2000 {
         match do_step(0, &sched, &mut blocked) {
             StepResult::Finished => break,
             StepResult::Blocked => {
-                if stuck {
+                blocked_in_a_row += 1;
+                // nobody is left to wake the loop thread: it is stuck in its wait
+                if stuck || blocked_in_a_row >= 4 {
                     break;
                 }
             }
-            _ => {}
+            _ => blocked_in_a_row = 0,
         }
     }
-    let loop_ok = sched.wait_settled(0, Duration::from_millis(3000)) == Status::Finished;
+    let loop_ok = sched.wait_settled(0, Duration::from_millis(if blocked_in_a_row >= 4 { 50 } else { 3000 })) == Status::Finished;
     if !loop_ok {
         ev("loop_stuck", json!({}));
     }
